@@ -1,11 +1,13 @@
 import GoframeModel.Ops.SqlRead
 import GoframeModel.Std.Csv
 import GoframeModel.Lemmas.SqlRead
+import GoframeModel.Spec.SqlRead
+import GoframeModel.Lemmas.SqlReadSpec
 /-
   C14 — SQL import reproduces the result set under the chosen NULL policy.
 -/
 namespace Goframe.C14
-open Goframe SqlRead SqlReadLemmas
+open Goframe SqlRead SqlReadLemmas SqlReadSpecLemmas
 
 /-- declared type → scan type, on the property's list (and the look-alikes the substring table catches) -/
 theorem scanTy_table :
@@ -121,5 +123,30 @@ theorem unknown_handler_on_null (ω : Oracle) (rs : ResultSet) (s : Str) (pd : L
   apply fromRows_not_ok
   rw [herr]
   exact readRows_unknown ω s pd rs.names _ hs (by simp [hwt]) rs.rows 0 hw hnull
+
+
+/-- For every result set with rectangular rows, every NULL policy, every ParseDates list and every entry
+condition, outside the one class the property leaves open (`Spec.ambiguous`): the import returns exactly the
+specified frame, or — exactly when the specification says so — an error and no frame. -/
+theorem fromSQL_spec (ω : Oracle) (nilHandle : Bool) (query : Str) (queryErr : Bool) (rs : ResultSet) (o : Opts)
+    (hw : ∀ r ∈ rs.rows, r.length = rs.names.length) (hwt : rs.types.length = rs.names.length)
+    (herr : ∀ k, rs.errAt = some k → k ≤ rs.rows.length)
+    (hamb : Spec.ambiguous ω rs o = false) :
+    (match Spec.specFromSQL ω nilHandle query queryErr rs o with
+     | some e => fromSQL ω nilHandle query queryErr rs o = .ok e
+     | none => (fromSQL ω nilHandle query queryErr rs o).isOk = false) := by
+  rw [specFromSQL_eq]
+  rw [ambiguous_eq] at hamb
+  unfold fromSQL
+  cases nilHandle
+  · cases hq : query with
+    | nil => simp [Outcome.isOk]
+    | cons b rest =>
+      cases queryErr
+      · simp only [Bool.false_or, List.isEmpty_cons, Bool.false_eq_true, if_false, reduceCtorEq]
+        exact fromRows_spec ω rs o hw hwt herr hamb
+      · simp [Outcome.isOk]
+  · simp [Outcome.isOk]
+
 
 end Goframe.C14
